@@ -47,7 +47,7 @@ type c10Case struct {
 	Third   *c10File `json:"third,omitempty"`
 	Item    string   `json:"item"`            // func | var | stmt | local
 	Uses    int      `json:"uses"`            // bit set of dependencies used by the item
-	History string   `json:"history"`         // single | chain | two | back | clone | reuse
+	History string   `json:"history"`         // single | chain | two | back | clone | reuse | viadep
 	Clash   bool     `json:"clash,omitempty"` // the target dot-imports a package exporting the names of dependency 0
 }
 
@@ -182,7 +182,7 @@ func init() {
 		ID:    "C10",
 		Level: "model_checking",
 		Rule: "typed worlds: three dependencies (two named x, one whose name differs from its path); source file with import style per dependency in {plain, alias, dot} x moved item {function, function also using a source-local function (ResolveLocalPath), variable, statement} using each non-empty subset of the dependencies " +
-			"x target file (same or another package; optionally dot-importing a further package that exports the same names as the first dependency) with style per dependency in {absent, plain, alias, dot, alias equal to the package name of another dependency} x histories {single move, chain through a third file, two items, move back, move a Clone, and (same package) the target restored by a FileRestorer that restored the source file first}; only type-correct source/target files are in the quantifier; decoration with the types-based resolver, restoration with an exact package-name map; " +
+			"x target file (same or another package; optionally dot-importing a further package that exports the same names as the first dependency) with style per dependency in {absent, plain, alias, dot, alias equal to the package name of another dependency} x histories {single move (quick tier: the further histories for function and statement items using all three dependencies; thorough: everywhere), chain through a third file, two items, move back, move a Clone, and (same package) the target restored by a FileRestorer that restored the source file first, and the item resting in (and being restored inside) the package it refers to before it moves on}; only type-correct source/target files are in the quantifier; decoration with the types-based resolver, restoration with an exact package-name map; " +
 			"oracle: the restored target type-checks and every moved identifier denotes the object of the same package path and name; state = (source styles, target styles, item, uses, history); non-trivial = every state",
 		Assumptions: []string{"go/types of this toolchain is the acceptance oracle", "no declaration of the generated targets shadows an import name (the property's proviso)"},
 		Units: func(tier string) []string {
@@ -225,9 +225,22 @@ func runC10(ctx *core.Ctx, unit int) {
 			tgt.Pkg = tpkg
 			for _, item := range items {
 				for uses := 1; uses < 8; uses++ {
+					if !ctx.Thorough() {
+						// quick tier: a dependency the item does not use appears in the target absent, plainly
+						// imported, or under the colliding alias (aliased and dot-imported only in the thorough tier)
+						skip := false
+						for i := 0; i < 3; i++ {
+							if uses&(1<<i) == 0 && (tgt.Styles[i] == 2 || tgt.Styles[i] == 3) {
+								skip = true
+							}
+						}
+						if skip {
+							continue
+						}
+					}
 					hists := []string{"single"}
-					if uses == 7 || ctx.Thorough() {
-						hists = []string{"single", "chain", "two", "back", "clone", "reuse"}
+					if (uses == 7 && (item == "func" || item == "stmt")) || ctx.Thorough() {
+						hists = []string{"single", "chain", "two", "back", "clone", "reuse", "viadep"}
 					}
 					for _, h := range hists {
 						for _, clash := range []bool{false, true} {
@@ -370,6 +383,26 @@ func c10Check(cs c10Case) (core.Outcome, bool) {
 			s = dst.Clone(s).(dst.Stmt)
 		}
 		place(src.file, orig, origS)
+	}
+	if cs.History == "viadep" {
+		// the item first rests in a file of the very package it refers to (dependency 0), which is
+		// restored with import management there, and only then moves on to the target
+		inter, err := c10Load(w, c10Paths[0], "package "+c10Names[0]+"\n\nfunc keepTgt() {\n}\n\nfunc slot() {\n}\n", false)
+		if err != nil {
+			return core.Outcome{OK: true}, false
+		}
+		place(inter.file, d, s)
+		var sink bytes.Buffer
+		var ierr error
+		if p := guard(func() { ierr = decorator.NewRestorerWithImports(c10Paths[0], simple.New(names)).Fprint(&sink, inter.file) }); p != "" || ierr != nil {
+			return fail("intermediate-restore-fails", "restoring the item inside the package it refers to: panic %q error %v", p, ierr)
+		}
+		if d != nil {
+			inter.file.Decls = inter.file.Decls[:len(inter.file.Decls)-1]
+		} else {
+			sl := findFunc(inter.file, "slot")
+			sl.Body.List = sl.Body.List[:len(sl.Body.List)-1]
+		}
 	}
 	place(tgt.file, d, s)
 	expectRefs = perItem
